@@ -20,6 +20,7 @@ From LV Require Model.Utf Proofs.LoadsFrameProofs Proofs.LoadsTableProofs Proofs
 From LV Require Model.LoaderExt Model.StreamFilt Spec.StreamCodecSpec Model.Png Proofs.ObjStmSpellProofs Proofs.LengthRefProofs Gen.SaveFmt Proofs.LoadsRefLenProofs Proofs.ObjStmFilterProofs.
 From LV Require Proofs.LoadsLoopProofs Proofs.LoadsObjStmProofs Proofs.LoadsObjStmFile Proofs.LoadsObjStmWhole Proofs.LoadsFullProofs Proofs.LoaderExtProofs.
 From LV Require Proofs.LoadsMultiProofs Proofs.LoadsMultiFull Proofs.LoadsMultiExample Proofs.LoadsMultiXSec Proofs.LoadsMultiMixed Proofs.LoadsMultiMixedFull.
+From LV Require Proofs.LoadsMultiObjStm Proofs.LoadsMultiAll.
 Local Open Scope N_scope.
 
 (* (1) Cross-reference streams.  For ALL field widths (0 = field absent, any positive width, not all three
@@ -1387,6 +1388,63 @@ Proof.
     + unfold LoadsFullProofs.sx_window. rewrite Hx, Hs. split; [unfold u32_max; repeat split; lia|]. vm_compute. lia.
 Qed.
 
+(* ---------------------------------------------------------------------------------------------
+   ref_write_multi WITH OBJECT STREAMS (Proofs/LoadsMultiObjStm.v, LoadsMultiAll.v).
+   C02_multi_one_part_is_single: a file of ONE part of ref_write_multi -- with whatever object streams the style asks for; the part
+   then holds every container and its section lists every member as a type-2 entry -- IS the single-section file of the part's
+   style (ref_write (with_part st p true) a): same bytes.  (The part must not list object 0 "again": with nothing before it
+   ref_write_multi writes the entry of object 0 with generation 0 then, ref_write always with 65535.)
+   C02_loads_multi_objstm_partial: ONE statement for every file of ref_write_multi proved so far, object streams included, with
+   the conclusion of C02_full; the structural numbers of a file of several parts are the object-stream containers and the
+   cross-reference streams of ALL parts.  Domain [C02_multi_domain_all]: C02_multi_domain (several parts, either format per
+   part, no object streams) OR one part with C02_domain of the part's style (any object streams, any filter chain, deferred
+   Length: everything of C02_full).
+   PARTIAL, what is missing: object streams in a file of TWO OR MORE parts (notes/C02.md, Round 6, lists the steps; the
+   writer-side closed form of one part with containers is LoadsMultiObjStm.write_parts_step_os). *)
+Theorem C02_multi_one_part_is_single :
+  forall (st : fstyle) (p : mpart) (a : adoc) (file : bytes),
+    mem_N 0 (mp_relist p) = false ->
+    ref_write_multi st [p] a = Some file -> ref_write (with_part st p true) a = Some file.
+Proof. exact LoadsMultiObjStm.multi_single. Qed.
+
+Definition C02_multi_domain_all (st : fstyle) (parts : list mpart) (a : adoc) (file : bytes) : Prop :=
+  C02_multi_domain st parts a file \/
+  exists p, parts = [p] /\ mem_N 0 (mp_relist p) = false /\ C02_domain (with_part st p true) a.
+
+Theorem C02_loads_multi_objstm_partial :
+  forall (st : fstyle) (parts : list mpart) (a : adoc) (file : bytes),
+    C02_multi_domain_all st parts a file -> ref_write_multi st parts a = Some file ->
+    exists d t, LoaderExt.load_ext LoadsFilterProofs.decompress_ref LoadsFilterProofs.can_ref file = LOk d t /\
+                d_version d = a_version a /\
+                (forall id, In (fst id) (map os_id (s_ostms st) ++ part_xids parts) \/
+                            match lookup (d_objects d) id, lookup (content a) id with
+                            | Some o, Some o' => same_value o' o
+                            | None, None => True
+                            | _, _ => False
+                            end) /\
+                (forall k, In k [bs "Type"; bs "W"; bs "Index"; bs "Length"; bs "Filter"; bs "DecodeParms"] \/
+                           match dict_get (d_trailer d) k, dict_get (a_trailer a ++ [(bs "Size", OInt (Z.of_N (1 + max_num
+                                   (map (fun io => fst (fst io)) (a_objs a) ++ map os_id (s_ostms st) ++ part_xids parts))))]) k with
+                           | Some o, Some o' => same_value o' o
+                           | None, None => True
+                           | _, _ => False
+                           end).
+Proof. exact LoadsMultiAll.loads_multi_all. Qed.
+
+(* non-vacuity of the object-stream branch: the file of C02_example_loads_objstm written by ref_write_multi as one part *)
+Definition ex_part_os : mpart :=
+  {| mp_nums := [3; 9; 20]; mp_old := []; mp_relist := []; mp_order := [20; 3]; mp_xref := XStream ex_xs_os;
+     mp_sx := (ECRLF, 1%nat, 2%nat, ECR, Some ELF) |}.
+Theorem C02_example_loads_multi_objstm :
+  exists file, ref_write_multi ex_fstyle_os [ex_part_os] ex_adoc_os = Some file /\
+               C02_multi_domain_all ex_fstyle_os [ex_part_os] ex_adoc_os file.
+Proof.
+  assert (E : ref_write_multi ex_fstyle_os [ex_part_os] ex_adoc_os <> None) by (vm_compute; discriminate).
+  destruct (ref_write_multi ex_fstyle_os [ex_part_os] ex_adoc_os) as [f|]; [|contradiction]. exists f. split; [reflexivity|].
+  right. exists ex_part_os. split; [reflexivity|]. split; [reflexivity|].
+  change (with_part ex_fstyle_os ex_part_os true) with ex_fstyle_os. exact (proj1 C02_example_full).
+Qed.
+
 (* ---------- non-vacuity ---------- *)
 Definition ex_secs : xsections := [(0, [SFree 0 65535; SInUse 17 0]); (5, [SComp 3 1; SInUse 70000 2])].
 Definition ex_dict : dict :=
@@ -1513,6 +1571,9 @@ Print Assumptions C02_example_loads_multi_mixed.
 Print Assumptions C02_example_loads_multi_filtered.
 Print Assumptions C02_example_loads_multi_reflen.
 Print Assumptions C02_example_full.
+Print Assumptions C02_multi_one_part_is_single.
+Print Assumptions C02_loads_multi_objstm_partial.
+Print Assumptions C02_example_loads_multi_objstm.
 Print Assumptions C02_example_loads_table.
 Print Assumptions C02_example_object.
 Print Assumptions C02_example_literal.
